@@ -58,8 +58,14 @@ package ec
 //@   callee (reedsolomon.Encoder).ReconstructSome
 //@   pureeffect
 //@   requires [required_is_exactly_the_data_parts] len(a1) == int(rule.DataPartNum) + int(rule.ParityPartNum) && (forall k int :: 0 <= k && k < len(a1) ==> a1[k] == (k < int(rule.DataPartNum)))
+//@   defines err == nil ==> codecRestoredTheDataParts()
+// ... and the payload is cut out only after the codec answered: the lengths of the data parts
+// at hand say nothing about whether a part that carries payload is among them (the trailing
+// parts of a short payload are alignment zeros).
+//@ ghost pred codecRestoredTheDataParts() bool
 //@ func Decode
 //@   property C21
+//@   ensures [payload_cut_only_after_the_codec_restored_the_data_parts] err == nil ==> codecRestoredTheDataParts()
 //@   valid int(rule.DataPartNum) + int(rule.ParityPartNum) <= 255
 //@   loop 1 invariant int(rangeiter) < int(rule.DataPartNum) && len(required) == int(rule.DataPartNum) + int(rule.ParityPartNum) && (forall k int :: 0 <= k && k < len(required) ==> required[k] == (k < int(rangeiter)))
 
@@ -74,6 +80,19 @@ package ec
 //@   valid int(rule.DataPartNum) + int(rule.ParityPartNum) <= 255 && 0 <= fromIdx && toIdx < int(rule.DataPartNum) + int(rule.ParityPartNum)
 //@   loop 1 invariant fromIdx <= i && (i <= toIdx + 1 || i == fromIdx) && len(required) == int(rule.DataPartNum) + int(rule.ParityPartNum) && (forall k int :: 0 <= k && k < len(required) ==> required[k] == (fromIdx <= k && k < i))
 
+// DecodeIndexes (the policer's re-creation of lost parts) hands the codec the parts as it got
+// them and asks for exactly the listed ones: it writes nothing into the caller's parts itself -
+// buffers for the parts to restore are the codec's business (slices cut from one array without
+// their offsets would make every restored part the same memory).
+//@ callrule c21_indexes_decode_collaborators in DecodeIndexes
+//@   property C21
+//@   callee ec.newCoderForRule, fmt.Errorf
+//@   pureeffect
+//@ callrule c21_indexes_decode_hands_the_parts_on_as_received in DecodeIndexes
+//@   property C21
+//@   callee (reedsolomon.Encoder).ReconstructSome
+//@   pureeffect
+//@   requires [parts_as_received] samearray(a0, parts) && len(a0) == len(parts) && (forall k int :: 0 <= k && k < len(parts) ==> samearray(a0[k], old(parts[k])) && len(a0[k]) == old(len(parts[k])) && cap(a0[k]) == old(cap(parts[k])))
 //@ callrule c21_coder_matches_rule in newCoderForRule
 //@   property C21
 //@   callee reedsolomon.New
